@@ -6,11 +6,16 @@
     c, s and the recurrence weights a, b are named hypotheses, re-checked
     numerically by the plugin on every explored grid.
 
-    Not proved here (explored on the implementation by the plugin's oracles): the
-    composition of these building blocks into the full nonlinear tendencies of
-    primitive_equations.py / shallow_water.py / held_suarez.py. *)
-From Dino Require Import Base.Ops Base.Sums Base.Inst Gen.DerivExprs Model.SHT Model.Deriv Model.Invariants Model.Symmetry
-     Thm.Deriv Thm.Symmetry.
+    The composition into the explicit primitive-equation tendencies is proved for the
+    mirror over the nodal column algebra of Model/PrimEq.v (property C04's model of
+    primitive_equations.py: dry, moist, cloud classes) assembled with the concrete
+    transforms / spectral operators (theorems C10_primeq_...).  Not proved here
+    (explored on the implementation by the plugin's oracles): the same composition
+    for rotations beyond the nodal stage (it needs only linearity and the rotation
+    lemmas above, no sign bookkeeping), shallow_water.py, held_suarez.py, and the
+    implicit terms / inverse (functions of l and level only). *)
+From Dino Require Import Base.Ops Base.Sums Base.Inst Gen.DerivExprs Model.SHT Model.Deriv Model.Invariants Model.Sigma Model.Implicit
+     Model.PrimEq Model.Symmetry Thm.Deriv Thm.Symmetry.
 From Coq Require Import Qcanon.
 Local Open Scope F_scope.
 
@@ -205,6 +210,139 @@ Section C10_steps.
   Proof. exact (integrators_equivariant Fx G Ginv T E dt alpha al be ga a_ex a_im b_ex b_im Hsym). Qed.
 End C10_steps.
 
+(** *** the primitive-equation tendencies (nodal column algebra of Model/PrimEq.v) *)
+Section C10_primeq.
+  Context {F : Type} {o : Ops F} {Fc : FieldC o}.
+  Variable c : @PEcfg F.
+
+  (** (a) every nodal expression is pointwise in the horizontal: permuting all per-node inputs (tables sec2_lat
+      and f invariant under the permutation, as for longitude shifts) permutes every nodal output *)
+  Theorem C10_primeq_nodal_shift_equivariant {P A : Type} (pi : P -> P) (fn : NCol -> A)
+          (U V Z D T : P -> nat -> F) (gx gy sec2 cor : P -> F) p :
+    (forall p, sec2 (pi p) = sec2 p) -> (forall p, cor (pi p) = cor p) ->
+    fn (mk_cols (fun p => U (pi p)) (fun p => V (pi p)) (fun p => Z (pi p)) (fun p => D (pi p)) (fun p => T (pi p))
+                (fun p => gx (pi p)) (fun p => gy (pi p)) sec2 cor p)
+    = (fun p' => fn (mk_cols U V Z D T gx gy sec2 cor p')) (pi p).
+  Proof. exact (primeq_nodal_shift_equivariant pi fn U V Z D T gx gy sec2 cor p). Qed.
+
+  (** (b) parities under the mirror (inputs: u even, v odd, vorticity odd, divergence / T' / tracers even,
+      grad lnps = (even, odd), sec2 even, f odd - [ncol_mirror]), all K, all level sets:
+      scalar totals even, flux (even, odd), momentum terms (even, odd), kinetic energy even, R T' variants even,
+      humidity divergence / geopotential terms even, humidity curl term odd *)
+  Theorem C10_primeq_nodal_mirror_equivariant va sparse (m : Moist) (x : NCol) (rt q qc qi s gqx gqy : nat -> F) lapl n :
+    (n < cK c)%nat ->
+    (temp_nodal_total c va (ncol_mirror x) n = temp_nodal_total c va x n /\
+     temp_nodal_total_moist c va m (ncol_mirror x) q n = temp_nodal_total_moist c va m x q n /\
+     tracer_nodal_total c va (ncol_mirror x) s n = tracer_nodal_total c va x s n /\
+     log_pressure_tendency c (ncol_mirror x) = log_pressure_tendency c x /\
+     hsa_mu (ncol_mirror x) s n = hsa_mu x s n /\
+     hsa_mv (ncol_mirror x) s n = - hsa_mv x s n) /\
+    (combined_u c va (ncol_mirror x) rt n = combined_u c va x rt n /\
+     combined_v c va (ncol_mirror x) rt n = - combined_v c va x rt n /\
+     kinetic (ncol_mirror x) n = kinetic x n /\
+     rt_dry c (ncol_mirror x) n = rt_dry c x n /\
+     rt_moist c m (ncol_mirror x) q n = rt_moist c m x q n /\
+     rt_cloud c m (ncol_mirror x) q qc qi n = rt_cloud c m x q qc qi n) /\
+    (humidity_div_nodal c m (ncol_mirror x) q gqx (fun j => - gqy j) lapl n = humidity_div_nodal c m x q gqx gqy lapl n /\
+     humidity_curl_nodal c m (ncol_mirror x) gqx (fun j => - gqy j) n = - humidity_curl_nodal c m x gqx gqy n /\
+     humidity_geo_nodal c sparse m (ncol_mirror x) q n = humidity_geo_nodal c sparse m x q n).
+  Proof.
+    intros Hn. split; [exact (primeq_scalar_nodal_mirror c va m x q s n Hn)|].
+    split; [exact (primeq_vector_nodal_mirror c va m x rt q qc qi n Hn)|exact (primeq_humidity_nodal_mirror c sparse m x q gqx gqy lapl n)].
+  Qed.
+
+  (** (c) composition with the concrete transforms and spectral operators, un-padded modal shape (R, L) *)
+  Section Concrete.
+    Variables (fast : bool) (R L I J : nat) (f : nat -> nat -> F) (p : nat -> nat -> nat -> F) (wq : nat -> F)
+              (rad : F) (wa wb : @marr F) (grav : F).
+    Hypothesis HR : layout_ok fast R.
+    Hypothesis Hpar : H_parity fast R L J p.
+    Hypothesis Hnod : H_nodes_sym J wq.
+    Let toM := toMc R I J f p wq.
+    Let divc := divcc fast R L rad wa wb.
+    Let curlc := curlcc fast R L rad wa wb.
+    Let lap := lapc L rad.
+    Let clp := clipc L.
+    Let piN := piNc J.
+
+    (** velocities of the mirrored state: (u, v) from (pseudo-scalar vorticity, scalar divergence) is (even, odd) *)
+    Theorem C10_get_cos_lat_vector_mirror cl (vort dive : marr) i l :
+      (i < R)%nat -> (l < L)%nat ->
+      fst (get_cos_lat_vector fast L R L rad wa wb cl (mir_modal fast true vort) (mir_modal fast false dive)) i l
+        = mir_modal fast false (fst (get_cos_lat_vector fast L R L rad wa wb cl vort dive)) i l /\
+      snd (get_cos_lat_vector fast L R L rad wa wb cl (mir_modal fast true vort) (mir_modal fast false dive)) i l
+        = mir_modal fast true (snd (get_cos_lat_vector fast L R L rad wa wb cl vort dive)) i l.
+    Proof. intros; eapply get_cos_lat_vector_mirror; eassumption. Qed.
+
+    (** the nodal columns synthesised from the mirrored modal diagnostic fields are (entrywise) the mirrored
+        family of nodal columns *)
+    Theorem C10_primeq_columns_of_mirrored_state (um vm zeta delta temp : nat -> marr) (gxm gym : marr) (sec2 cor : nat -> F) :
+      (forall j, (j < J)%nat -> sec2 j = sec2 (J - 1 - j)%nat) -> (forall j, (j < J)%nat -> cor j = - cor (J - 1 - j)%nat) ->
+      cols_eqv Wc (inPc I J) c
+        (cols_of_modal R L J f p (fun k => mir_modal fast false (um k)) (fun k => mir_modal fast true (vm k))
+                       (fun k => mir_modal fast true (zeta k)) (fun k => mir_modal fast false (delta k))
+                       (fun k => mir_modal fast false (temp k)) (mir_modal fast false gxm) (mir_modal fast true gym) sec2 cor)
+        (mirX Wc piN (cols_of_modal R L J f p um vm zeta delta temp gxm gym sec2 cor)).
+    Proof. intros; eapply primeq_columns_of_mirrored_state; eassumption. Qed.
+
+    (** the explicit tendencies of the mirrored family of columns are the mirrored tendencies:
+        temperature (dry / moist), tracers, log surface pressure and divergence are scalars, vorticity a pseudo-scalar *)
+    Theorem C10_primeq_tendency_mirror_equivariant (m : Moist) (X : Wc -> NCol) (rt q s : Wc -> nat -> F)
+            (orog hum humz : Wc -> F) r a l :
+      (r < cK c)%nat -> (a < R)%nat -> (l < L)%nat ->
+      temp_tendency_explicit Wc Wc toM divc clp c (mirX Wc piN X) r (a, l)
+        = mir_modal fast false (un (temp_tendency_explicit Wc Wc toM divc clp c X r)) a l /\
+      temp_tendency_explicit_moist Wc Wc toM divc clp c m (mirX Wc piN X) (fun n => q (piN n)) r (a, l)
+        = mir_modal fast false (un (temp_tendency_explicit_moist Wc Wc toM divc clp c m X q r)) a l /\
+      tracer_tendency_explicit Wc Wc toM divc clp c (mirX Wc piN X) (fun n => s (piN n)) r (a, l)
+        = mir_modal fast false (un (tracer_tendency_explicit Wc Wc toM divc clp c X s r)) a l /\
+      toM (fun n => log_pressure_tendency c (mirX Wc piN X n)) (a, l)
+        = mir_modal fast false (un (toM (fun n => log_pressure_tendency c (X n)))) a l /\
+      div_tendency_explicit Wc Wc toM divc lap clp c grav (mirX Wc piN X) (fun n => rt (piN n)) (Sec fast orog) (Sec fast hum) r (a, l)
+        = mir_modal fast false (un (div_tendency_explicit Wc Wc toM divc lap clp c grav X rt orog hum r)) a l /\
+      vort_tendency_explicit Wc Wc toM curlc clp c (mirX Wc piN X) (fun n => rt (piN n)) (Soc fast humz) r (a, l)
+        = mir_modal fast true (un (vort_tendency_explicit Wc Wc toM curlc clp c X rt humz r)) a l.
+    Proof. intros; eapply primeq_tendency_mirror_equivariant; eassumption. Qed.
+
+    (** ... and so are the tendencies computed from the columns of the mirrored MODAL state *)
+    Theorem C10_primeq_mirrored_state_tendency (m : Moist) (um vm zeta delta temp : nat -> marr) (gxm gym : marr)
+            (sec2 cor : nat -> F) (rt rt' q q' s s' : Wc -> nat -> F) (orog hum humz : Wc -> F) r a l :
+      let X := cols_of_modal R L J f p um vm zeta delta temp gxm gym sec2 cor in
+      let X' := cols_of_modal R L J f p (fun k => mir_modal fast false (um k)) (fun k => mir_modal fast true (vm k))
+                              (fun k => mir_modal fast true (zeta k)) (fun k => mir_modal fast false (delta k))
+                              (fun k => mir_modal fast false (temp k)) (mir_modal fast false gxm) (mir_modal fast true gym) sec2 cor in
+      (forall j, (j < J)%nat -> sec2 j = sec2 (J - 1 - j)%nat) -> (forall j, (j < J)%nat -> cor j = - cor (J - 1 - j)%nat) ->
+      (forall n, inPc I J n -> rt' n r = rt (piN n) r) -> (forall n, inPc I J n -> q' n r = q (piN n) r) ->
+      (forall n, inPc I J n -> forall k, (k < cK c)%nat -> s' n k = s (piN n) k) ->
+      (r < cK c)%nat -> (a < R)%nat -> (l < L)%nat ->
+      temp_tendency_explicit Wc Wc toM divc clp c X' r (a, l)
+        = mir_modal fast false (un (temp_tendency_explicit Wc Wc toM divc clp c X r)) a l /\
+      temp_tendency_explicit_moist Wc Wc toM divc clp c m X' q' r (a, l)
+        = mir_modal fast false (un (temp_tendency_explicit_moist Wc Wc toM divc clp c m X q r)) a l /\
+      tracer_tendency_explicit Wc Wc toM divc clp c X' s' r (a, l)
+        = mir_modal fast false (un (tracer_tendency_explicit Wc Wc toM divc clp c X s r)) a l /\
+      toM (fun n => log_pressure_tendency c (X' n)) (a, l)
+        = mir_modal fast false (un (toM (fun n => log_pressure_tendency c (X n)))) a l /\
+      div_tendency_explicit Wc Wc toM divc lap clp c grav X' rt' (Sec fast orog) (Sec fast hum) r (a, l)
+        = mir_modal fast false (un (div_tendency_explicit Wc Wc toM divc lap clp c grav X rt orog hum r)) a l /\
+      vort_tendency_explicit Wc Wc toM curlc clp c X' rt' (Soc fast humz) r (a, l)
+        = mir_modal fast true (un (vort_tendency_explicit Wc Wc toM curlc clp c X rt humz r)) a l.
+    Proof.
+      intros X X'; intros; eapply primeq_mirrored_state_tendency; eassumption.
+    Qed.
+
+    (** humidity corrections of the moist classes (q even, grad q = (even, odd), laplacian(lnps) even) *)
+    Theorem C10_primeq_humidity_mirror (m : Moist) (X : Wc -> NCol) (q gqx gqy : Wc -> nat -> F) (lapn : Wc -> F) r a l :
+      (a < R)%nat -> (l < L)%nat ->
+      humidity_div_modal Wc Wc toM lap c m (mirX Wc piN X) (fun n => q (piN n)) (fun n => gqx (piN n))
+                         (fun n k => - gqy (piN n) k) (fun n => lapn (piN n)) r (a, l)
+        = mir_modal fast false (un (humidity_div_modal Wc Wc toM lap c m X q gqx gqy lapn r)) a l /\
+      humidity_curl_modal Wc Wc toM c m (mirX Wc piN X) (fun n => gqx (piN n)) (fun n k => - gqy (piN n) k) r (a, l)
+        = mir_modal fast true (un (humidity_curl_modal Wc Wc toM c m X gqx gqy r)) a l.
+    Proof. intros; eapply primeq_humidity_mirror_concrete; eassumption. Qed.
+  End Concrete.
+End C10_primeq.
+
 (** Non-vacuity over Qc: (i) the table hypotheses hold for the quarter-turn rotation on a 4 x 2 grid
     with M = 2, L = 2 in the reference layout (unnormalised basis: columns 1, cos, sin; Legendre
     values 1, x, and a constant for m = 1 at nodes -1/2, 1/2); (ii) the step hypotheses hold for the odd
@@ -223,6 +361,9 @@ Example C10_example :
   layout_ok false 3 /\
   H_rot_table false 3 4 ex_f 1 ex_c ex_s /\ H_p_pairs false 3 2 2 ex_p /\ H_parity false 3 2 2 ex_p /\
   H_nodes_sym 2 (fun _ => Q2Qc 1) /\ H_rot_unit ex_c ex_s /\
+  (* latitude tables of the primitive-equation theorems: sec2_lat even, Coriolis odd (nodes sin(lat) = -1/2, 1/2) *)
+  (forall j, (j < 2)%nat -> (fun _ : nat => Q2Qc (4 # 3)) j = (fun _ : nat => Q2Qc (4 # 3)) (2 - 1 - j)%nat) /\
+  (forall j, (j < 2)%nat -> ex_q [-1 # 2; 1 # 2]%Q j = - ex_q [-1 # 2; 1 # 2]%Q (2 - 1 - j)%nat) /\
   sym_hyps (vo := FSp) (fun x : Qc => x * x * x) (fun x => (1 + 1) * x) (fun eta x => eta * x) (fun x => - x) eq.
 Proof.
   split; [reflexivity|].
@@ -234,6 +375,8 @@ Proof.
   split. { intros j Hj. reflexivity. }
   split. { split; [apply Qc_is_canon; vm_compute; reflexivity|].
            intros j. destruct j as [|[|j]]; apply Qc_is_canon; vm_compute; reflexivity. }
+  split. { intros j Hj. reflexivity. }
+  split. { intros j Hj. destruct j as [|[|j]]; try lia; apply Qc_is_canon; vm_compute; reflexivity. }
   unfold sym_hyps. cbn [vz va vs FSp].
   repeat split; intros; subst; try reflexivity; try congruence; cbn; ring.
 Qed.
@@ -260,4 +403,11 @@ Print Assumptions C10_step_equivariant.
 Print Assumptions C10_trajectory_equivariant.
 Print Assumptions C10_leapfrog_trajectory_equivariant.
 Print Assumptions C10_integrators_equivariant.
+Print Assumptions C10_primeq_nodal_shift_equivariant.
+Print Assumptions C10_primeq_nodal_mirror_equivariant.
+Print Assumptions C10_get_cos_lat_vector_mirror.
+Print Assumptions C10_primeq_columns_of_mirrored_state.
+Print Assumptions C10_primeq_tendency_mirror_equivariant.
+Print Assumptions C10_primeq_mirrored_state_tendency.
+Print Assumptions C10_primeq_humidity_mirror.
 Print Assumptions C10_example.
